@@ -86,6 +86,12 @@ STATEFUL = [
     "[datetime($.n * 1000, timespan(hours => $.n mod 10)).offset.hours, $.n]",
     "format('{0}-{1}', $.n, $.s)", "'{a}'.format(a => $.list)",
     "$.list.select(str($)).join(',')", "$.list.toList() * 2",
+    # integers beyond the interpreter's int->str digit limit (a process-wide
+    # setting): conversions of such values next to ordinary ones
+    "str(pow(10, 4400) + $.n).len()", "[pow(7, 6000), $.n].select(str($).len())",
+    "str([$.n, pow(10, 4400)]).len()", "'{0}'.format(pow(10, 4400) * $.n).len()",
+    "str($.n) + str(pow(10, 4400)).substring(0, 3)",
+    "int(str(pow(10, 4400) + $.n)) - pow(10, 4400)",
     "$hostvar + $.list", "$hostdict.set(z, $.n)", "$hostvar.len() + $.n",
     "hostlist() + $.list", "$.list.select(probe($))",
     "$.recs.select($.name + str($.v))", "$.recs.toDict($.name, $.v)",
@@ -121,6 +127,8 @@ BROKEN = ["$.list.select(", "1 +", "$.n + * 2", "[1, 2", "$.s =~", "foo(,)",
 
 
 def family_of(text):
+    if '4400' in text or '6000' in text:
+        return 'interpreter_settings'
     if '$yobj' in text:
         return 'host_objects'
     if any(k in text for k in ('kindOf', 'chained', 'notStr', 'subLen',
@@ -226,7 +234,15 @@ def gen_case(seeds, params, index):
     P = pool()
     nthreads = w.choice([2, 2, 2, 3, 3, 4])
     mix = w.choice(['same', 'same', 'different', 'mixed'])
-    eval_flavour = w.random() < 0.12
+    eval_flavour = w.random() < 0.14
+    prefill = 0
+    if eval_flavour and w.random() < 0.6:
+        # the host has used yaql.eval for a while: its module-level cache
+        # holds that many other expressions already (sizes around the powers
+        # of two, where a bounded cache would overflow)
+        prefill = (1 << w.choice([4, 5, 6, 7, 7, 8, 9, 10])) - w.choice(
+            [0, 1, 1, 2, 2, 3, 4])
+        mix = w.choice(['different', 'different', 'mixed'])
     nst = 1 if mix == 'same' else w.choice([2, 3, 4])
     stmts = []
     for _ in range(nst):
@@ -296,7 +312,8 @@ def gen_case(seeds, params, index):
                 modes.append([si, di, w.choice(['parse', 'parse', 'copy', 'yi',
                                                 'copyq', 'copyl'])])
     return {'stmts': stmts, 'docs': docs, 'tasks': tasks, 'sched': spec,
-            'via_eval': eval_flavour, 'cold': w.random() < 0.25,
+            'via_eval': eval_flavour, 'eval_prefill': prefill,
+            'cold': w.random() < 0.25,
             'shared': w.choice(['plain', 'plain', 'plain', 'multi', 'linked',
                                 'bare']),
             'modes': modes}
@@ -535,6 +552,9 @@ def run_world(case, stats, record=None):
         yaql._cached_engine = world.engine
         yaql._cached_expressions = {}
         yaql._default_context = world.P
+        for i in range(case.get('eval_prefill') or 0):
+            yaql.eval('%d' % (100000 + i))
+        prefilled = yaql._cached_expressions
 
     modes = {(a, b): m_ for a, b, m_ in case.get('modes', [])}
 
@@ -625,8 +645,9 @@ def run_world(case, stats, record=None):
         # ---- concurrent phase ----
         if eval_globals:
             # same module-level state as before the baseline
+            import copy
             yaql._cached_engine = world.engine
-            yaql._cached_expressions = {}
+            yaql._cached_expressions = copy.copy(prefilled)
             yaql._default_context = world.P
         if cold:
             snap0 = cworld.snapshot()
